@@ -103,11 +103,15 @@ func (s *coreSim) genPayload(rng *vrng, e int, p coreProfile) []byte {
 	if len(p.sizes) > 0 {
 		n = p.sizes[rng.intn(len(p.sizes))]
 	}
+	// the fragment-count limit (255) is within the B8 contract when the peer's window is large
+	if s.k[1-e].rcv_wnd >= 256 && mss <= 76 && rng.chance(8) {
+		n = rng.pick(254*mss+1, 255*mss, 255*mss+1, 256*mss, 256*mss+1)
+	}
 	// B8: in message mode a message must fit the receiver's window (documented contract)
 	if s.cfg.Stream == 0 && !p.bigSend {
 		maxFrag := int(s.k[1-e].rcv_wnd)
-		if maxFrag > 255 {
-			maxFrag = 255
+		if maxFrag > 257 {
+			maxFrag = 257 // beyond 255 fragments Send refuses; the refusal itself is part of the contract
 		}
 		if n > maxFrag*mss {
 			n = maxFrag * mss
